@@ -92,8 +92,23 @@ func buildLB(e *worlds.Env, forC11 bool) (*lbWorld, *lbSample) {
 	}
 	nup := 1 + tp.Choose(maxUp, "n-upstreams")
 	L.ups = e.NewProxyUps()
+	// in one run of three some upstream connections are reset by the upstream after the first
+	// bytes (the relay then closes that upstream connection itself, before the handler's cleanup)
+	e.S.WatchSite = func(site string) bool { return strings.Contains(site, "countConn") }
+	resetSome := tp.Prob(1, 3, "upstream-resets")
+	earlyEOF := tp.Prob(1, 3, "upstream-early-eof")
+	resetKey := e.S.Seed*0x9e3779b97f4a7c15 + 77
 	L.ups.ScriptFor = func(addr string, idx int) *worlds.UpScript {
-		return &worlds.UpScript{Mode: worlds.UpSink, AbortAt: -1}
+		sc := &worlds.UpScript{Mode: worlds.UpSink, AbortAt: -1}
+		switch bits := (resetKey >> (uint(idx) % 48)) & 3; { // decided without the tape: called from connection goroutines
+		case resetSome && bits == 0:
+			sc.AbortAt = 1
+		case earlyEOF && bits == 1:
+			// the upstream ends its sending direction at once and keeps reading: the proxied
+			// connection stays open (and counted) until the client is done
+			sc.Mode, sc.SendLen = worlds.UpSource, int(resetKey>>50)&3
+		}
+		return sc
 	}
 	sample := &lbSample{}
 	k := 0
@@ -589,7 +604,9 @@ func runC10(t *testing.T, e *worlds.Env, tier string) (bool, any) {
 						min = ev.Before[i].Conns
 					}
 				}
-				if ev.Before[ev.Result].Conns != min {
+				// (exact only when no connection counter was updated during the call: a count that went
+				// down and up again leaves identical snapshots but not what the policy read)
+				if ev.CountMoves == 0 && ev.Before[ev.Result].Conns != min {
 					fail("least_conn", "least_conn returned upstream %d with %d connections; minimum among available %v is %d", ev.Result, ev.Before[ev.Result].Conns, A, min)
 					return
 				}
